@@ -804,3 +804,57 @@ it makes `decide` able to run the enhanced selector. -/
   negInf := -1000000000000
 
 end Srtla.Select
+
+/-! ## Round 2 (C13 rotation clauses): what `stall_gated` means after a guard-on pass -/
+namespace Srtla.Select
+
+variable {F : Type}
+
+theorem cacheEq.latchedSince {c' c : SLink F} (h : cacheEq c' c) : c'.latchedSince = c.latchedSince := by
+  obtain ⟨q, t, rfl⟩ := h; rfl
+
+theorem cacheEq.silencePulled {c' c : SLink F} (h : cacheEq c' c) : c'.silencePulled = c.silencePulled := by
+  obtain ⟨q, t, rfl⟩ := h; rfl
+
+theorem cacheEq.healthy {c' c : SLink F} (h : cacheEq c' c) (now : Nat) : healthy now c' = healthy now c := by
+  obtain ⟨q, t, rfl⟩ := h; rfl
+
+theorem cacheEq.latched {c' c : SLink F} (h : cacheEq c' c) : latched c' = latched c := by
+  obtain ⟨q, t, rfl⟩ := h; rfl
+
+/-- Guard on: after `apply_stall_gate`, `stall_gated = any_healthy && (latched || pulled)` where
+`any_healthy` can be read off the list the pass leaves behind. -/
+theorem applyStallGate_on_gated (ls : List (SLink F)) (now : Nat) (cfg : Cfg) (h : cfg.stallDeselect = true) :
+    ∀ c ∈ applyStallGate ls now cfg,
+      c.stallGated = ((applyStallGate ls now cfg).any (healthy now) && (latched c || c.silencePulled)) := by
+  rw [applyStallGate_on ls now cfg h]
+  generalize ls.map (guardStep now cfg) = ls1
+  have hany : (ls1.map (setGated (ls1.any (healthy now)))).any (healthy now) = ls1.any (healthy now) := by
+    rw [List.any_map]; rfl
+  intro c hc
+  obtain ⟨x, -, rfl⟩ := List.mem_map.1 hc
+  rw [hany]; rfl
+
+section scalar5
+variable [Scalar F]
+
+/-- The same on the state `select_connection_idx` leaves behind (either mode). -/
+theorem selectIdx_on_gated (ls : List (SLink F)) (last : Option Nat) (now : Nat) (cfg : Cfg)
+    (h : cfg.stallDeselect = true) :
+    ∀ c ∈ (selectIdx ls last now cfg).1,
+      c.stallGated = ((selectIdx ls last now cfg).1.any (healthy now) && (latched c || c.silencePulled)) := by
+  obtain ⟨f, hf, e⟩ := selectIdx_fst ls last now cfg
+  rw [e]
+  have hany : ((applyStallGate ls now cfg).map f).any (healthy now) = (applyStallGate ls now cfg).any (healthy now) := by
+    rw [List.any_map]
+    congr 1
+    funext c
+    exact (hf c).healthy now
+  intro c hc
+  obtain ⟨x, hx, rfl⟩ := List.mem_map.1 hc
+  rw [hany, (hf x).stallGated, (hf x).latched, (hf x).silencePulled]
+  exact applyStallGate_on_gated ls now cfg h x hx
+
+end scalar5
+
+end Srtla.Select
